@@ -26,7 +26,9 @@ type World struct {
 	Prog        *ssa.Program
 	SSA         *ssa.Package
 	Funcs       map[string]*ssa.Function // short name -> function (source functions only)
-	Names       []string                 // sorted short names
+	nanExitMemo map[*ssa.Function]int
+	fwdMemo     map[*ssa.Function]string
+	Names       []string // sorted short names
 	Files       []string
 
 	sums          map[*ssa.Function]*Summary
